@@ -332,6 +332,11 @@ func describeD(v ssa.Value, depth int) string {
 	case *ssa.BinOp:
 		return "(" + describeD(x.X, depth+1) + " " + x.Op.String() + " " + describeD(x.Y, depth+1) + ")"
 	case *ssa.Call:
+		if g := staticCallee(&x.Call); g != nil && inSmtp(g) {
+			if fd := getterField(g); fd != "" && len(x.Call.Args) == 1 {
+				return fd // locked or plain accessor: identified with the field it returns
+			}
+		}
 		cn := calleeName(&x.Call)
 		var as []string
 		if x.Call.IsInvoke() {
@@ -389,6 +394,19 @@ func describeD(v ssa.Value, depth int) string {
 		return "next"
 	case *ssa.MakeChan:
 		return "makechan(" + describeD(x.Size, depth+1) + ")"
+	case *ssa.Select:
+		var ps []string
+		for _, st := range x.States {
+			dir := "recv:"
+			if st.Dir == types.SendOnly {
+				dir = "send:"
+			}
+			ps = append(ps, dir+describeD(st.Chan, depth+1))
+		}
+		if !x.Blocking {
+			ps = append(ps, "default")
+		}
+		return "select[" + strings.Join(ps, "|") + "]"
 	case *ssa.MakeMap:
 		return "makemap"
 	case *ssa.MakeSlice:
@@ -703,4 +721,50 @@ func returnedValues(r *ssa.Return) []ssa.Value {
 		}
 	}
 	return out
+}
+
+var getterCache = map[*ssa.Function]string{}
+
+// getterField: g is an accessor method whose only result is the value of a
+// field of its receiver (possibly read under a lock); returns "Type.field".
+func getterField(g *ssa.Function) string {
+	if r, ok := getterCache[g]; ok {
+		return r
+	}
+	getterCache[g] = ""
+	if g.Signature.Recv() == nil || len(g.Params) != 1 || g.Signature.Results().Len() != 1 || g.Blocks == nil {
+		return ""
+	}
+	res := ""
+	n := 0
+	allInstrs(g, func(in ssa.Instruction) {
+		r, ok := in.(*ssa.Return)
+		if !ok || in.Block() == g.Recover {
+			return
+		}
+		n++
+		v := returnedValues(r)[0]
+		if f, base := loadedField(v); f != nil && base == ssa.Value(g.Params[0]) {
+			res = fieldDesc(f, base)
+		} else {
+			res = "-"
+		}
+	})
+	// no stores to fields, no calls other than lock operations
+	pure := true
+	allInstrs(g, func(in ssa.Instruction) {
+		if f, _, _ := storedField(in); f != nil {
+			pure = false
+		}
+		if cc := callCommon(in); cc != nil {
+			if _, _, isLock := lockOp(in); !isLock {
+				pure = false
+			}
+		}
+	})
+	if n != 1 || res == "-" || !pure {
+		return ""
+	}
+	getterCache[g] = res
+	return res
 }
